@@ -628,7 +628,7 @@ func (g *c09Gen) key(depth int) c09Key {
 	case k < 9:
 		return c09Key{K: g.pick([]string{"KEYWORD", "UNKEYWORD"}), S: g.pick([]string{"$Foo", "foo", "FOO", "Bar", "nokw"})}
 	case k < 10:
-		return c09Key{K: "HEADER", S: g.pick([]string{"X-K", "x-k", "Subject", "Date", "Content-Type", "X-Part", "Nope"}), S2: g.pick([]string{"", "v", "V", "hello", "multipart", "2020"})}
+		return c09Key{K: "HEADER", S: g.pick([]string{"X-K", "x-k", "Subject", "Date", "Content-Type", "X-Part", "Nope"}), S2: g.pick([]string{"", "v", "V", "hello", "multipart", "2020", "second", "SECOND", "econ"})}
 	case k < 12:
 		return c09Key{K: g.pick([]string{"BCC", "CC", "FROM", "SUBJECT", "TO"}), S: g.pick(words)}
 	case k < 13:
@@ -1331,10 +1331,39 @@ func (r *c09Runner) corpus() {
 		}
 		return true
 	})
+	// a header field that occurs more than once: SEARCH HEADER looks at every occurrence
+	rep := []c09Cmd{
+		c09Plain(0, "CREATE", "CREATE INBOX", "CCreate "+coqHxS("INBOX")),
+		c09AppendFixed("INBOX", nil, "Received: from alpha\r\nReceived: from beta\r\nX-K: first\r\nSubject: one\r\nX-K: second target\r\n\r\nbody\r\n"),
+		c09AppendFixed("INBOX", nil, "Received: from beta\r\nX-K: target\r\nX-K: \r\n\r\nbody\r\n"),
+		c09AppendFixed("INBOX", nil, "Received: from gamma\r\nKeywords: a\r\nKeywords: INVOICE\r\n\r\nbody\r\n"),
+		c09Plain(0, "SELECT", "SELECT INBOX", "CSelect "+coqHxS("INBOX")+" false"),
+		c09SearchCmd(0, false, []c09Key{{K: "HEADER", S: "Received", S2: "from beta"}}),
+		c09SearchCmd(0, false, []c09Key{{K: "NOT", Sub: []c09Key{{K: "HEADER", S: "Received", S2: "from beta"}}}}),
+		c09SearchCmd(0, false, []c09Key{{K: "HEADER", S: "x-k", S2: "TARGET"}}),
+		c09SearchCmd(0, false, []c09Key{{K: "HEADER", S: "X-K", S2: "first"}}),
+		c09SearchCmd(0, false, []c09Key{{K: "HEADER", S: "keywords", S2: "invoice"}}),
+		c09SearchCmd(0, false, []c09Key{{K: "HEADER", S: "X-K", S2: ""}}),
+	}
+	repWant := map[int]string{5: "[1 2]", 6: "[3]", 7: "[1 2]", 8: "[1]", 9: "[3]", 10: "[1 2]"}
+	r.runHistory(1, rep, "corpus:search-header-repeated", func(step int, st *c09Step, conns []*c09Conn) bool {
+		if want := repWant[step]; want != "" {
+			for _, d := range st.Res.Data {
+				if d.K == "SEARCH" && fmt.Sprint(d.Nums) != want {
+					r.h.Fail("c09/search-header-repeated", fmt.Sprintf("%q on messages with repeated header fields returned %v, expected %s (every occurrence of the field counts)", st.Cmd.Line, d.Nums, want),
+						map[string]interface{}{"src": "corpus:search-header-repeated", "sessions": 1, "commands": rep[:step+1]})
+				}
+			}
+		}
+		return true
+	})
 	// EXAMINE is read-only (RFC 3501 6.3.2: "no changes to the permanent state of the mailbox, including
 	// per-user state, are permitted"; 6.4.2: CLOSE on a mailbox selected by EXAMINE removes no messages
 	// and gives no error).  Session 1 examines, session 0 observes independently.
 	r.examineReadOnly()
+	for seed := int64(1); seed <= int64(r.h.Pick(12, 120)); seed++ {
+		r.searchRes(seed)
+	}
 	// BODYSTRUCTURE of a multipart without parts: crash oracle only (not modelled)
 	r.probe([]string{"CREATE INBOX", "APPEND INBOX {52}\x00Content-Type: multipart/mixed; boundary=b\r\n\r\n--b--\r\n", "APPEND INBOX {45}\x00Content-Type: multipart/mixed; boundary=b\r\n\r\n",
 		"SELECT INBOX", "FETCH 1:2 BODYSTRUCTURE", "FETCH 1:2 BODY", "FETCH 1:2 FULL", "FETCH 1:2 ALL", "FETCH 1:2 (ENVELOPE BODY[1] BODY[1.MIME] BINARY[1] BINARY.SIZE[1])"}, "corpus:bodystructure-empty-multipart")
